@@ -63,6 +63,7 @@ class RealK:
         cls.Interrupt = exceptions.Interrupt
         cls.EmptySchedule = core.EmptySchedule
         cls.Event = events.Event
+        cls.Timeout = events.Timeout
         cls._loaded = True
         _load_library_exceptions()
         return cls
@@ -81,6 +82,21 @@ class Crit(BaseException):
 
 
 EXC = {"Boom": Boom, "Bang": Bang, "ValueError": ValueError, "KeyError": KeyError, "Crit": Crit}
+
+
+class AnyVal:
+    """a value that claims equality with everything (like unittest.mock.ANY): legal as an event value"""
+
+    def __eq__(self, other):
+        return True
+
+    def __ne__(self, other):
+        return False
+
+    __hash__ = object.__hash__
+
+    def __repr__(self):
+        return "<ANY>"
 
 
 def _load_library_exceptions():
@@ -148,11 +164,16 @@ def gen_script(rng, prof, flavour, idx, nscripts, nev, npids_guess):
     for _ in range(nops):
         k = rng.choices(kinds, weights)[0]
         if k == "timeout":
-            ops.append(["timeout", gen_delay(rng, flavour)])
+            ops.append(["timeout", gen_delay(rng, flavour)] + (["ctor"] if rng.random() < 0.1 else []))
+        elif k == "chain" and nev >= 2:
+            a, b = rng.sample(range(nev), 2)
+            ops.append(["chain", a, b])
+        elif k == "cbint" and nev:
+            ops.append(["cbint", rng.randrange(nev), rng.randrange(max(1, npids_guess))])
         elif k == "wait" and nev:
             ops.append(["wait", rng.randrange(nev)])
         elif k == "succeed" and nev:
-            ops.append(["succeed", rng.randrange(nev)] + (["excval"] if rng.random() < 0.08 else []))
+            ops.append(["succeed", rng.randrange(nev)] + (["excval"] if rng.random() < 0.08 else ["anyval"] if rng.random() < 0.05 else []))
         elif k == "fail" and nev:
             ops.append(["fail", rng.randrange(nev), rng.choice(["Boom", "Bang", "ValueError", "Boom", "Crit", "StopProcess"])])
         elif k == "spawn" and idx + 1 < nscripts:
@@ -164,7 +185,7 @@ def gen_script(rng, prof, flavour, idx, nscripts, nev, npids_guess):
             else:
                 ops.append(["joinpid", rng.randrange(max(1, npids_guess))])
         elif k == "interrupt":
-            ops.append(["interrupt", rng.randrange(max(1, npids_guess))])
+            ops.append(["interrupt", rng.randrange(max(1, npids_guess))] + (["fwd"] if rng.random() < 0.15 else []))
         elif k == "cb" and nev:
             ops.append(["cb", rng.randrange(nev)])
         elif k == "cond":
@@ -277,6 +298,8 @@ class Runner:
 
     def cv(self, val):
         """canonical form of a received value"""
+        if isinstance(val, AnyVal):
+            return ("anyval",)
         if val is None or isinstance(val, (int, float, str)):
             return val
         if hasattr(val, "todict") and hasattr(val, "events"):
@@ -313,12 +336,19 @@ class Runner:
         return pid
 
     # -- building yield targets -------------------------------------------------
-    def new_timeout(self, d):
+    def ccause(self, c):
+        """canonical form of an interrupt cause (a forwarded Interrupt object is a legal cause)"""
+        if isinstance(c, self.K.Interrupt):
+            return ("Interrupt", self.ccause(c.cause))
+        return c
+
+    def new_timeout(self, d, ctor=False):
         self.nuid += 1
         label = f"T{self.nuid}"
         if self.mon:
             self.mon.trigger(label, NORMAL, self.env.now + d)
-        ev = self.env.timeout(d, "v" + label)
+        # the exported class constructed directly is the same public API as env.timeout()
+        ev = self.K.Timeout(self.env, d, "v" + label) if ctor else self.env.timeout(d, "v" + label)
         self._name(ev, label)
         self._probe(ev, label, NORMAL)
         return ev, label
@@ -382,7 +412,7 @@ class Runner:
                 kind = op[0]
                 ev = None
                 if kind == "timeout":
-                    ev, label = self.new_timeout(op[1])
+                    ev, label = self.new_timeout(op[1], ctor=len(op) > 2)
                 elif kind == "wait":
                     ev, label = self.shared[op[1]], f"E{op[1]}"
                 elif kind == "joinkid":
@@ -404,6 +434,8 @@ class Runner:
                         if kind == "succeed":
                             if len(op) > 2 and op[2] == "excval":
                                 tgt.succeed(Boom(f"value{pid}.{opi}"))      # an exception object as an ordinary value
+                            elif len(op) > 2 and op[2] == "anyval":
+                                tgt.succeed(AnyVal())                       # a value that compares equal to everything
                             else:
                                 tgt.succeed(f"s{pid}.{opi}")
                         else:
@@ -411,10 +443,11 @@ class Runner:
                         res = "ok"
                     except RuntimeError:
                         res = "RuntimeError"
-                    tape.append((env.now, kind, pid, opi, f"E{op[1]}", res))
+                    tape.append((env.now, kind, pid, opi, f"E{op[1]}", res,
+                                 before is None or (before[0] is tgt._ok and before[1] is tgt._value)))
                     if mon:
                         mon.trigger_result(f"E{op[1]}", was, res,
-                                           before is None or before == (tgt._ok, tgt._value))
+                                           before is None or (before[0] is tgt._ok and before[1] is tgt._value))
                     continue
                 elif kind == "spawn":
                     kids.append(self.spawn(op[1], pid))
@@ -425,17 +458,61 @@ class Runner:
                         continue
                     self.nint += 1
                     cause = f"i{self.nint}"
+                    raw = cause
+                    if len(op) > 2:
+                        # an Interrupt object as the cause (a handler passing on what it caught): the victim must
+                        # receive Interrupt(<that object>), not an unwrapped copy
+                        raw = K.Interrupt(cause)
+                        cause = ("Interrupt", cause)
                     expect_err = (v == pid) or self.ended[v]
                     if mon and not expect_err:
-                        mon.trigger("I" + cause, URGENT, env.now)
+                        mon.trigger("I" + str(cause), URGENT, env.now)
                     try:
-                        self.procs[v].interrupt(cause)
+                        self.procs[v].interrupt(raw)
                         res = "ok"
                     except RuntimeError:
                         res = "RuntimeError"
                     tape.append((env.now, "interrupt", pid, opi, v, cause, res))
                     if mon:
                         mon.interrupt_issued(cause, pid, v, expect_err, res)
+                    continue
+                elif kind == "chain":
+                    src, dst = self.shared[op[1]], self.shared[op[2]]
+                    if src.callbacks is not None:
+                        def fwd(e, dst=dst, lab=f"E{op[2]}", slab=f"E{op[1]}"):
+                            # dst.trigger(src) is the library's chaining callback; calling it on a triggered event is
+                            # misuse (nothing is stated about it), so the harness only chains into a pending event
+                            if dst.triggered:
+                                tape.append((env.now, "chain-skip", slab, lab))
+                                return
+                            if mon:
+                                mon.trigger(lab, NORMAL, env.now)
+                            dst.trigger(e)
+                            tape.append((env.now, "chain", slab, lab))
+                        src.callbacks.append(fwd)
+                        tape.append((env.now, "addchain", pid, opi, f"E{op[1]}", f"E{op[2]}"))
+                    continue
+                elif kind == "cbint":
+                    tgt = self.shared[op[1]]
+                    v = op[2]
+                    if tgt.callbacks is not None and v < len(self.procs) and self.procs[v] is not None:
+                        def cbi(e, v=v, opi=opi):
+                            # an interrupt issued from a plain callback (no process is active)
+                            self.nint += 1
+                            cause = f"i{self.nint}"
+                            expect_err = self.ended[v]
+                            if mon and not expect_err:
+                                mon.trigger("I" + cause, URGENT, env.now)
+                            try:
+                                self.procs[v].interrupt(cause)
+                                res = "ok"
+                            except RuntimeError:
+                                res = "RuntimeError"
+                            tape.append((env.now, "interrupt", "cb", opi, v, cause, res))
+                            if mon:
+                                mon.interrupt_issued(cause, -1, v, expect_err, res)
+                        tgt.callbacks.append(cbi)
+                        tape.append((env.now, "addcbint", pid, opi, f"E{op[1]}", v))
                     continue
                 elif kind == "cb":
                     tgt = self.shared[op[1]]
@@ -463,9 +540,9 @@ class Runner:
                     try:
                         val = yield ev
                     except K.Interrupt as it:
-                        tape.append((env.now, "int", pid, opi, label, it.cause))
+                        tape.append((env.now, "int", pid, opi, label, self.ccause(it.cause)))
                         if mon:
-                            mon.interrupted(pid, label, it.cause)
+                            mon.interrupted(pid, label, self.ccause(it.cause))
                         if on_int == "rewait" and rewaits < self.MAX_REWAIT:
                             rewaits += 1
                             continue
@@ -539,7 +616,10 @@ class Runner:
                 return r
             if r[0] == "ret":
                 if self.env.peek() != float("inf"):
-                    continue            # a stale stop marker ended the call early; keep going
+                    # run() without `until` returns only when nothing is left: something (a stop marker left behind
+                    # by an aborted run(until=t)?) ended the call early -- visible on the tape, then keep going
+                    self.tape.append((self.env.now, "run-returned-with-agenda-nonempty"))
+                    continue
                 self.tape.append((self.env.now, "run-end", "ret"))
                 return r
             self.escapes.append((self.env.now, self.env.steps, r[1]))
@@ -574,9 +654,27 @@ class Runner:
                     self.tape.append((env.now, "escape", canon_exc(r[1])))
                     if mon:
                         mon.escaped(r[1])
+                    continue          # the aborted call must not influence the later ones: go on with the next stop
                 break
         self.run_to_end()
         return reached
+
+
+def count_extras(ctx, r):
+    """evidence: how often the less common call forms were exercised (program ops and what fired)"""
+    for sc in r.prog["scripts"]:
+        for op in sc["ops"]:
+            if op[0] == "timeout" and len(op) > 2:
+                ctx.count("timeouts_by_class_constructor")
+            elif op[0] == "succeed" and len(op) > 2 and op[2] == "anyval":
+                ctx.count("succeed_with_equal_to_everything_value")
+            elif op[0] == "interrupt" and len(op) > 2:
+                ctx.count("interrupt_ops_with_interrupt_object_as_cause")
+    for e in r.tape:
+        if e[1] == "chain":
+            ctx.count("chained_triggers_fired")
+        elif e[1] == "interrupt" and e[2] == "cb":
+            ctx.count("interrupts_issued_from_plain_callbacks")
 
 
 def first_diff(a, b):
@@ -840,7 +938,7 @@ class Monitor:
         if res != "ok":
             self.bad("interrupt-of-live-refused", "interrupt() on a live process raised",
                      {"issuer": issuer, "victim": victim})
-            self.dead.add("I" + cause)
+            self.dead.add("I" + str(cause))
             return
         r = self.r
         tgt = self.where.get(("p", victim))
@@ -892,7 +990,7 @@ class Monitor:
         for c in self.by_victim.pop(pid, []):
             self.n["int_discarded"] += 1
             self.ints[c]["done"] = "discarded"
-            self.dead.add("I" + c)
+            self.dead.add("I" + str(c))
 
     def finish(self):
         """end-of-run checks; returns the list of violations"""
